@@ -46,6 +46,7 @@ type c09Case struct {
 	Later  string    `json:"later"` // answers after the first attempt: "ok" | "same"
 	DQ     bool      `json:"dq"`
 	Retry  int       `json:"retry"`
+	Follow int       `json:"follow"` // >0: a second batch of that many events (ids N+1..) is fed right behind the first one, and the dead queue is slow
 }
 
 type c09Entry struct {
@@ -75,12 +76,20 @@ func (c *c09Ctl) Commit(e *pipeline.Event) {
 }
 func (c *c09Ctl) Error(string) {}
 
-type c09DQ struct{ log *c09Log }
+type c09DQ struct {
+	log  *c09Log
+	slow time.Duration // the dead queue takes that long to accept its first event
+	once sync.Once
+}
 
 func (d *c09DQ) Start(pipeline.AnyConfig, *pipeline.OutputPluginParams) {}
 func (d *c09DQ) Stop()                                                  {}
 func (d *c09DQ) Out(e *pipeline.Event) {
-	d.log.add(c09Entry{T: "dq", ID: int(e.SeqID)})
+	id := int(e.SeqID) // what was handed over is read at the moment of the call
+	if d.slow > 0 {
+		d.once.Do(func() { time.Sleep(d.slow) })
+	}
+	d.log.add(c09Entry{T: "dq", ID: id})
 	d.log.done <- struct{}{}
 }
 
@@ -152,7 +161,7 @@ func c09Run(c *c09Case, be *c09Backend, url string, wi int) []c09Entry {
 	if c.DQ {
 		router.SetDeadQueueOutput(&pipeline.OutputPluginInfo{
 			PluginStaticInfo:  &pipeline.PluginStaticInfo{Type: "c09dq"},
-			PluginRuntimeInfo: &pipeline.PluginRuntimeInfo{Plugin: &c09DQ{log: log}},
+			PluginRuntimeInfo: &pipeline.PluginRuntimeInfo{Plugin: &c09DQ{log: log, slow: map[bool]time.Duration{true: 60 * time.Millisecond}[c.Follow > 0]}},
 		})
 	}
 	// the plugin's error callback (onError of the RetriableBatcher) is observable through its log message
@@ -184,9 +193,22 @@ func c09Run(c *c09Case, be *c09Backend, url string, wi int) []c09Entry {
 	for _, ev := range x.evs {
 		p.Out(ev)
 	}
+	if c.Follow > 0 {
+		// the next batch arrives while the first one is being given up: with one worker there is ONE batch object, so the
+		// second batch is collected in the object the first one has just left (Out blocks until that object is free)
+		f := make([]c19Ev, c.Follow)
+		for i := range f {
+			f[i] = c19Ev{ID: c.N + i + 1, Kind: "regular", Size: 1, Val: 0}
+		}
+		y := c19MakeEvents(f, &seq)
+		defer y.release()
+		for _, ev := range y.evs {
+			p.Out(ev)
+		}
+	}
 	deadline := time.After(60 * time.Second)
 wait:
-	for i := 0; i < c.N; i++ {
+	for i := 0; i < c.N+c.Follow; i++ {
 		select {
 		case <-log.done:
 		case <-deadline:
